@@ -111,6 +111,24 @@ impl Bytes {
         });
         self.len += n as u32;
     }
+    /// feature `bytesdirect`: index the target directly (`b[l + j]`). Same result; linear instead of
+    /// quadratic symbolic-execution cost when all lengths are concrete (e.g. hashing fixed-width
+    /// serialisations). With SYMBOLIC lengths it produces symbolic array indices (slow in the solver),
+    /// so only profiles whose byte-string lengths are concrete should enable it.
+    #[cfg(feature = "bytesdirect")]
+    pub fn append(&mut self, o: &Bytes) {
+        let n = o.len as usize;
+        if self.len as usize + n > BYTES_CAP {
+            model::overflow()
+        }
+        let l = self.len as usize;
+        // n <= BYTES_CAP - l: at most BYTES_CAP / 8 trips
+        for8!(j, n, {
+            self.b[l + j] = o.b[j];
+        });
+        self.len += n as u32;
+    }
+    #[cfg(not(feature = "bytesdirect"))]
     pub fn append(&mut self, o: &Bytes) {
         let n = o.len as usize;
         if self.len as usize + n > BYTES_CAP {
@@ -156,14 +174,28 @@ impl Bytes {
         let mut out = Bytes::new(&Env);
         let n = (hi - lo) as usize;
         let lo = lo as usize;
-        for8!(k, BYTES_CAP, {
-            if k < n {
-                let s = k + lo;
-                let mut v = 0u8;
-                for8!(q, BYTES_CAP, { if q == s { v = self.b[q]; } });
-                out.b[k] = v;
-            }
-        });
+        // feature `slicedirect`: read the source directly (`b[k + lo]`). Same result; linear instead of
+        // quadratic symbolic-execution cost when the lower bound is concrete (it is a literal in all
+        // library uses); a symbolic lower bound would give symbolic array indices.
+        #[cfg(feature = "slicedirect")]
+        {
+            for8!(k, BYTES_CAP, {
+                if k < n {
+                    out.b[k] = self.b[k + lo];
+                }
+            });
+        }
+        #[cfg(not(feature = "slicedirect"))]
+        {
+            for8!(k, BYTES_CAP, {
+                if k < n {
+                    let s = k + lo;
+                    let mut v = 0u8;
+                    for8!(q, BYTES_CAP, { if q == s { v = self.b[q]; } });
+                    out.b[k] = v;
+                }
+            });
+        }
         out.len = n as u32;
         out
     }
